@@ -294,8 +294,22 @@ Fixpoint nested (fuel : nat) (lenient : bool) (fs : args) (v : cv) : res :=
   end.
 
 (* ---- subcommands ------------------------------------------------------------------------------------- *)
-Definition sections (m : list (str * args)) (l : list (str * cv)) : list str :=
-  filter (fun s => match assoc s l with Some (CDict x) => has_leaf (CDict x) | _ => false end) (map fst m).
+(* how the configuration reaches _parse_common:
+     MDefaults : parsed with defaults=True (any channel): handle_subcommands merges the subparser's defaults, so the section of
+                 the chosen subcommand always exists afterwards, and empty mappings do not survive merge_config;
+     MNoDefObj : parse_object(..., defaults=False): nothing is merged in; a section without any leaf does not survive
+                 merge_config(cfg_apply, cfg);
+     MNoDefStr : parse_string(..., defaults=False): the loaded mapping is used as it is, an empty section stays a Namespace() *)
+Inductive mode := MDefaults | MNoDefObj | MNoDefStr.
+
+(* subcommand_keys of get_subcommands: the subcommands whose section is a Namespace *)
+Definition is_section (md : mode) (l : list (str * cv)) (s : str) : bool :=
+  match assoc s l with
+  | Some (CDict x) => match md with MNoDefStr => true | _ => has_leaf (CDict x) end
+  | _ => false
+  end.
+Definition sections (md : mode) (m : list (str * args)) (l : list (str * cv)) : list str :=
+  filter (is_section md l) (map fst m).
 
 Fixpoint remove_keys (ks : list str) (l : list (str * cv)) : list (str * cv) :=
   match l with
@@ -310,8 +324,8 @@ Fixpoint set_key (k : str) (v : cv) (l : list (str * cv)) : list (str * cv) :=
   end.
 
 (* get_subcommands as called from handle_subcommands: the chosen name and the mapping afterwards *)
-Definition select (sb : subs) (l : list (str * cv)) : option str * list (str * cv) :=
-  let secs := sections (s_map sb) l in
+Definition select (md : mode) (sb : subs) (l : list (str * cv)) : option str * list (str * cv) :=
+  let secs := sections md (s_map sb) l in
   let chosen :=
     match assoc (s_dest sb) l with
     | Some (CStr s) => Some s
@@ -320,10 +334,18 @@ Definition select (sb : subs) (l : list (str * cv)) : option str * list (str * c
   match chosen with
   | Some s =>
       let l1 := match assoc (s_dest sb) l with Some (CStr _) => l | _ => set_key (s_dest sb) (CStr s) l end in
-      (* the selected section always exists once the subparser's defaults are merged, so the next
-         get_subcommands call (before validation) removes every other section *)
-      (Some s, remove_keys (filter (fun x => negb (str_eqb x s))
-                              (filter (fun x => match assoc x l with Some (CDict _) => true | _ => false end) (map fst (s_map sb)))) l1)
+      (Some s,
+       remove_keys
+         (match md with
+          | MDefaults =>
+              (* the selected section always exists once the subparser's defaults are merged, so the next
+                 get_subcommands call (before validation) removes every other section *)
+              filter (fun x => negb (str_eqb x s))
+                (filter (fun x => match assoc x l with Some (CDict _) => true | _ => false end) (map fst (s_map sb)))
+          | _ =>
+              (* "Remove extra subcommand settings": only when more than one section is there *)
+              if Nat.ltb 1 (length secs) then filter (fun x => negb (str_eqb x s)) secs else []
+          end) l1)
   | None => (None, l)
   end.
 
@@ -364,7 +386,7 @@ Definition top_apply (chk : list str -> decl -> cv -> res) (p : parser) (l : lis
   end.
 
 (* the parse methods on a configuration tree (object, config string, --cfg, environment config) *)
-Definition run (fuel : nat) (p : parser) (cfg : cv) : res :=
+Definition run (md : mode) (fuel : nat) (p : parser) (cfg : cv) : res :=
   match cfg with
   | CDict l =>
       let lchk := chk_action (nested fuel true) in
@@ -375,7 +397,7 @@ Definition run (fuel : nat) (p : parser) (cfg : cv) : res :=
            bind (first_failure (top_walk schk (fun _ _ _ => Ok) p l))
                 (check_required1 [] (p_args p) cfg)
        | Some sb =>
-           let '(chosen, l') := select sb l in
+           let '(chosen, l') := select md sb l in
            let bad := match chosen with
                       | Some s => match assoc s (s_map sb) with Some _ => false | None => true end
                       | None => true
